@@ -754,6 +754,7 @@ def oracle(p):
     composite_direct_checks(rng, grids, specs, max(24, n // 4), report, counts)
     expflow_sharing_checks(rng, max(24, n // 5), report, counts)
     fit_checks(rng, max(10, n // 12), report, counts)
+    accessor_copy_checks(rng, max(20, n // 6), report, counts)
     # de-duplicate by key keeping the shortest history
     best = {}
     for f in fails:
@@ -916,6 +917,62 @@ def composite_checks(rng, grids, specs, n, report, counts):
                                    f"composite call differs from a freshly built composite of the members' current state by {d:.3g}", list(hist))
         except Exception as e:  # noqa
             report(f"C09:SequentialTransform:{hist[-1]['op']}:raises", f"{type(e).__name__}: {str(e)[:120]}", list(hist))
+
+
+def accessor_copy_checks(rng, n, report, counts):
+    """regressions ac06f87 / 91d1617: the functional accessors grid(g), data(arg), unlink(), condition(...) return a new
+    transform and leave the receiver evaluating exactly what it held before (same parameters, same condition of the members,
+    same buffers semantics); the new transform evaluates its own state"""
+    counts["accessor_checks"] = 0
+    same_dom = [0, 1, 3, 4, 6]
+    specs_grids = None
+    for it in range(n):
+        kind = rng.choice(["disp", "svf", "ffd", "svffd", "lin", "seq"])
+        gi = rng.choice([0, 1])
+        g = Grid(size=((5, 4), (9, 7))[gi], spacing=((1, 1), (0.5, 0.5))[gi], align_corners=True)
+        g2 = Grid(size=((9, 7), (17, 13))[gi], spacing=((0.5, 0.5), (0.25, 0.25))[gi], align_corners=True)
+        acc = rng.choice(["grid", "grid", "data", "unlink", "condition"])
+        case = [{"op": "new", "kind": kind, "grid": gi, "Parameter": True}, {"op": acc}]
+        try:
+            if kind == "seq":
+                kinds = [rng.choice(["svf", "disp", "lin"]) for _ in range(2)]
+                members = [make(k, g, params=Parameter(rnd_params(rng, k, g))) for k in kinds]
+                t = S.SequentialTransform(*members)
+                acc = rng.choice(["grid", "condition"])
+                case[1]["op"] = acc
+            else:
+                t = make(kind, g, params=Parameter(rnd_params(rng, kind, g)))
+            x = torch.rand((1, 6, 2), generator=torch.Generator().manual_seed(4000 + it)) * 1.2 - 0.6
+            with torch.no_grad():
+                y0 = t(x)
+                cond0 = [m.condition() for m in t.transforms()] if kind == "seq" else t.condition()
+                if acc == "grid":
+                    t2 = t.grid(g2)
+                elif acc == "data":
+                    t2 = t.data(rnd_params(rng, kind, g))
+                elif acc == "unlink":
+                    t2 = t.unlink()
+                else:
+                    t2 = t.condition(3)
+                counts["accessor_checks"] += 1
+                cond1 = [m.condition() for m in t.transforms()] if kind == "seq" else t.condition()
+                y1 = t(x)
+                d = maxdiff(y1, y0)
+                if d > 1e-6 or cond0 != cond1:
+                    what = f"receiver maps points differently by {d:.3g}" if d > 1e-6 else f"condition of the receiver's members changed from {cond0!r} to {cond1!r}"
+                    report(f"C09:{'CompositeTransform' if kind == 'seq' else 'SpatialTransform'}.{acc}:modifies-receiver",
+                           f"{type(t).__name__}.{acc}(...) returned a new transform but the transform it was called on changed: {what}", case)
+                    continue
+                if acc in ("grid", "data") and kind != "seq":
+                    # the new transform holds its own state: a later data_() on the receiver must not reach it
+                    y2 = t2(x)
+                    t.data_(rnd_params(rng, kind, g))
+                    d = maxdiff(t2(x), y2)
+                    if d > 1e-6:
+                        report(f"C09:SpatialTransform.{acc}:copy-follows-receiver",
+                               f"the transform returned by {acc}(...) changed by {d:.3g} after data_() on the original", case)
+        except Exception as e:  # noqa
+            report(f"C09:{KINDS[kind].__name__ if kind != 'seq' else 'SequentialTransform'}.{acc}:accessor-raises", f"{type(e).__name__}: {str(e)[:120]}", case)
 
 
 def fit_checks(rng, n, report, counts):
